@@ -22,7 +22,7 @@ import vlib
 from vlib import f2b, fs2b, b2f, b2fs
 
 ID = "C01"
-GEN = ["Leaves", "Combinators", "Planar", "Misc", "Params", "Flows", "JaxTransforms", "BnafGen"]
+GEN = ["Leaves", "Combinators", "Planar", "Misc", "Params", "Flows", "JaxTransforms", "BnafGen", "TriangularGen", "PermGen"]
 RULE = ("expression trees over generated leaves (Affine/Loc/Scale with both signs, Exp, SoftPlus, Tanh, LeakyTanh, "
         "RationalQuadraticSpline with perturbed raw parameters) under generated Chain/Invert, depth<=3, evaluated by all "
         "four methods on boundary-directed inputs (interval ends, knots, ±max_val, tanh(max_val), ±1, 0, float neighbours, "
@@ -237,6 +237,8 @@ def corr(c, tier, rng):
     from props import netinv
     netinv.corr_net(c, tier, rng)
     # --- Planar (generated, both activations, conditional through get_planar) and TriangularAffine (hand model)
+    from props import permgen
+    permgen.corr_generated(c, tier, rng)  # the GENERATED Permute (Gen/PermGen.lean)
     from props import planar_tri
     planar_tri.corr_planar(c, tier, rng)
     planar_tri.corr_triangular(c, tier, rng)
